@@ -664,7 +664,6 @@ func c17Collection(r *hx.Rng, big bool) c17Input {
 	return in
 }
 
-
 // ---------- sort stress: 13-40 rows, tied keys mixed with distinct ones ----------
 
 // c17Text renders one configuration: for every (pkg, benchmark) its samples.
